@@ -55,6 +55,9 @@ def gen_str(r, maxlen=5):
 
 def gen_date(r):
     y = r.choice([1900, 1969, 1970, 1971, 1999, 2000, 2020, 2024, 2100, 9999])
+    if r.random() < 0.15:
+        # years with fewer than four digits (their text is shorter: order and identity are those of the instants)
+        y = r.choice([1, 9, 99, 100, 999, 1000, 1582, 1899])
     m = r.randint(1, 12)
     d = r.randint(1, 28)
     if r.random() < 0.5:
